@@ -340,7 +340,18 @@ func (g *gen) expr(t string, depth int) *Expr {
 		case 6:
 			return eBin("mod", g.expr("n", depth-1), []*Expr{eNum(2, 1), eNum(3, 1), eNum(3, 2), eNeg(eNum(2, 1)), eNum(5, 4)}[r.Intn(5)])
 		case 7:
-			switch r.Intn(4) {
+			switch r.Intn(5) {
+			case 4:
+				// a host function writing $x next to reads of $x: operands read before the call keep their value
+				switch r.Intn(4) {
+				case 0:
+					return eBin("add", eVar("x"), eCall("bump"))
+				case 1:
+					return eBin("sub", eCall("bump"), eVar("x"))
+				case 2:
+					return eBin("add", eBin("mul", eVar("x"), eNum(2, 1)), eBin("add", eCall("bump"), eVar("x")))
+				}
+				return eCall("bump")
 			case 0:
 				return eCall("cint", eNum(r.Intn(7), 1))
 			case 1:
@@ -614,6 +625,24 @@ func (g *gen) stmts(depth int, node int) []Stmt {
 			}
 			x -= w
 			return false
+		}
+		if cfg.RichExpr && r.Intn(6) == 0 {
+			// operands keep the value they had when they were read: $x is read, THEN a host function
+			// writes $x through the storer, in the same expression / argument list
+			switch r.Intn(4) {
+			case 0:
+				g.lineNo++
+				out = append(out, Stmt{K: "line", Text: []Part{{Lit: fmt.Sprintf("L%d ", g.lineNo)}, {E: eBin("add", eVar("x"), eCall("bump"))},
+					{Lit: " then "}, {E: eVar("x")}}})
+			case 1:
+				out = append(out, Stmt{K: "set", Var: "y", Op: "=", E: eBin("sub", eBin("mul", eVar("x"), eNum(2, 1)), eBin("mul", eVar("x"), eCall("bump")))})
+			case 2:
+				out = append(out, Stmt{K: "call", E: eCall("noret", eVar("x"), eCall("bump"), eVar("x"))})
+			default:
+				out = append(out, Stmt{K: "if", Clauses: []Clause{{Cond: eBin("lt", eVar("x"), eCall("bump")), Body: g.c.addBody([]Stmt{g.lineStmt()})}}})
+			}
+			lastWasOpts = false
+			continue
 		}
 		switch {
 		case pick(cfg.Lines):
